@@ -33,6 +33,7 @@ import (
 type c12Step struct {
 	C string    `json:"c"`           // table entry name, "advance" or "pipeline"
 	X bool      `json:"x,omitempty"` // true: the ...Ctx method is called, false: the plain one
+	D int       `json:"d,omitempty"` // Ctx form only: 0 live context, 1 already cancelled, 2 deadline already expired
 	K []string  `json:"k,omitempty"` // keys
 	S []string  `json:"s,omitempty"` // values / fields / members / patterns
 	I []int64   `json:"i,omitempty"` // integers (indices, counts, scores, seconds)
@@ -276,11 +277,24 @@ func c12DiffKeyspace(a, b map[string]string) string {
 
 // ---------------------------------------------------------------- interpreter
 
-func c12Ctx(x bool) context.Context {
-	if x {
-		return context.WithValue(context.Background(), c12CtxKey{}, "c12")
+// c12Ctx builds the context of a step: a live one (carrying a value in the Ctx
+// form), an already cancelled one or one whose deadline has already passed. With a
+// dead context go-redis answers ctx.Err() without touching the server; "the context
+// form" of a wrapper method must therefore do the same.
+func c12Ctx(s c12Step) (context.Context, context.CancelFunc) {
+	if !s.X {
+		return context.Background(), func() {}
 	}
-	return context.Background()
+	base := context.WithValue(context.Background(), c12CtxKey{}, "c12")
+	switch s.D {
+	case 1:
+		ctx, cancel := context.WithCancel(base)
+		cancel()
+		return ctx, cancel
+	case 2:
+		return context.WithDeadline(base, time.Unix(1, 0))
+	}
+	return base, func() {}
 }
 
 func c12Interp(t *testing.T, c c12Case) (v kit.Verdict) {
@@ -363,12 +377,19 @@ func (e *c12Env) step(s c12Step) string {
 	e.ncmd++
 	e.types[ent.typ] = true
 	e.classes["cmd:"+s.C] = true
-	hit := e.wellTyped(ent, s)
-	if hit {
+	dead := s.X && s.D != 0
+	if hit := !dead && e.wellTyped(ent, s); hit {
 		e.hits++
 		e.classes["hit:"+s.C] = true
 	}
-	ctx := c12Ctx(s.X)
+	ctx, cancel := c12Ctx(s)
+	defer cancel()
+	refCtx := context.Background()
+	if dead {
+		refCtx = ctx // go-redis gets the same dead context
+		e.classes[fmt.Sprintf("ctx-dead:%d", s.D)] = true
+		e.classes["deadctx:"+s.C] = true
+	}
 	ca0, cb0 := e.tw.mA.CommandCount(), e.tw.mB.CommandCount()
 	got, gerr := ent.wrap(e, ctx, s)
 	defer e.noteErr(gerr)
@@ -378,13 +399,23 @@ func (e *c12Env) step(s c12Step) string {
 	switch {
 	case gerr == red.Nil:
 		e.classes["reply:redis.Nil"] = true
-	case gerr != nil:
+	case gerr != nil && !dead:
 		e.classes["reply:server-error"] = true
 	}
 	if ent.judge != nil {
+		if dead {
+			// server-side random commands: with a dead context nothing is sent at all
+			if gerr != ctx.Err() {
+				return fmt.Sprintf("dead context (%v): wrapper returned (%s, %q), go-redis returns the context's error", ctx.Err(), c12Canon(got, false), c12ErrStr(gerr))
+			}
+			if da := e.tw.mA.CommandCount() - ca0; da != 0 {
+				return fmt.Sprintf("dead context: the wrapper still made its server process %d commands", da)
+			}
+			return ""
+		}
 		return ent.judge(e, s, got, gerr)
 	}
-	want, werr := ent.ref(e.tw.rawB, context.Background(), s)
+	want, werr := ent.ref(e.tw.rawB, refCtx, s)
 	if c12ErrStr(gerr) != c12ErrStr(werr) {
 		return fmt.Sprintf("wrapper error %q, go-redis (after documented Nil mapping) %q; wrapper value %s, go-redis value %s",
 			c12ErrStr(gerr), c12ErrStr(werr), c12Canon(got, ent.unordered), c12Canon(want, ent.unordered))
@@ -421,7 +452,13 @@ func (e *c12Env) pipeline(s c12Step) string {
 		}
 	}
 	var ca, cb []red.Cmder
-	ctx := c12Ctx(s.X)
+	ctx, cancel := c12Ctx(s)
+	defer cancel()
+	refCtx := context.Background()
+	if s.X && s.D != 0 {
+		refCtx = ctx
+		e.classes["deadctx:Pipelined"] = true
+	}
 	na0, nb0 := e.tw.mA.CommandCount(), e.tw.mB.CommandCount()
 	var gerr error
 	if s.X {
@@ -430,7 +467,7 @@ func (e *c12Env) pipeline(s c12Step) string {
 		gerr = e.r.Pipelined(queue(ctx, &ca))
 	}
 	defer e.noteErr(gerr)
-	_, werr := e.tw.rawB.Pipelined(context.Background(), queue(context.Background(), &cb))
+	_, werr := e.tw.rawB.Pipelined(refCtx, queue(refCtx, &cb))
 	if c12ErrStr(gerr) != c12ErrStr(werr) {
 		return fmt.Sprintf("Pipelined returned %q through the wrapper, %q through go-redis", c12ErrStr(gerr), c12ErrStr(werr))
 	}
@@ -582,6 +619,7 @@ func c12GenStep(g *c12G, top bool) c12Step {
 	case top && roll < 10:
 		np := g.uni(6)
 		s := c12Step{C: "pipeline", X: g.uni(2) == 1}
+		s.D = g.ctxMode(s.X)
 		for j := 0; j < np; j++ {
 			name := c12PipeNames[g.uni(len(c12PipeNames))]
 			q := c12Table[name].gen(g)
@@ -594,7 +632,24 @@ func c12GenStep(g *c12G, top bool) c12Step {
 	s := c12Table[name].gen(g)
 	s.C = name
 	s.X = g.uni(2) == 1
+	if top {
+		s.D = g.ctxMode(s.X)
+	}
 	return s
+}
+
+// ctxMode: about 1 Ctx call in 7 gets a dead context (cancelled or expired).
+func (g *c12G) ctxMode(x bool) int {
+	if !x {
+		return 0
+	}
+	switch r := g.uni(14); r {
+	case 0:
+		return 1
+	case 1:
+		return 2
+	}
+	return 0
 }
 
 // ---------------------------------------------------------------- rules
